@@ -54,6 +54,10 @@ sim::Json make_token(sim::Rng& rng, bool cmdline, bool allow_errors) {
                                    "mip:roun", "round_", "sol:stu", "solstu", "tech:flagop", "flagoptx", "lbpe", "alg:lbpenn", "wc:1", "1:val", "wc_1_va", "c:1:val"};
       name = near[rng.below(sizeof near / sizeof *near)];
     }
+    if (rng.chance(0.12)) {  // names with braces (the tokeniser stops at blanks and '=' only: these are legal name bytes, and messages quote them)
+      static const char* br[] = {"no{}such", "x}", "{0}", "{", "tech:{threads}", "lim:{time", "set{1}", "{{a}}", "a{:d}b", "%s%n"};
+      name = br[rng.below(sizeof br / sizeof *br)];
+    }
     if (rng.chance(0.25)) {  // a registered name with one foreign byte (non-ASCII, control) before, after or inside it; a name made of such bytes only
       static const char* junk[] = {"\xff", "\x80", "\xc3\xa9", "\x01", "\x1f", "\x7f", "\xa0", "\xe2\x80\x8b"};
       const OptDef& d0 = defs()[rng.below(defs().size())];
